@@ -21,6 +21,21 @@ BAD_IMAGE_NAMES = ['svg_import', 'xhtml', 'html', 'css', 'empty', 'garbage', 'pn
                    'png_cut_tail', 'jpeg_cut30', 'jpeg_cut_half', 'svg_cut', 'otf']
 FONT_NAMES = ['otf', 'otf', 'woff', 'woff2', 'otf_cut', 'woff_bad', 'woff2_bad', 'wof_other', 'empty', 'garbage',
               'html', 'png']
+
+
+def font_names(rng):
+    """Payloads for a font URL: valid fonts, plain failures, and the damaged-but-plausible family (real OTF / WOFF /
+    WOFF2 bytes truncated at many offsets, with an inverted byte, with a wrong or swapped magic number)."""
+    return FONT_NAMES if rng.random() < 0.45 else R.damaged_names('font')
+
+
+def image_names(rng):
+    r = rng.random()
+    if r < 0.5:
+        return IMAGE_NAMES
+    return BAD_IMAGE_NAMES if r < 0.78 else R.damaged_names('image')
+
+
 ORIENTATIONS = ['from-image', 'none', (0, False), (90, False), (0, True), (180, True), (270, False)]
 REDIRECTS = [None, None, None, 'file:///tmp/c20-named/a.png', 'http://cdn.test/r.png', 'file:///tmp/c20-named/b%20c.jpg',
              'file:', 'FILE:///tmp/c20-named/upper.png', 'file://host/share/x.png?q=1#f']
@@ -312,8 +327,7 @@ class C20(PropCheck):
             pool.append(scheme + f'i{i}.' + rng.choice(['png', 'jpg', 'svg', 'bin']))
         table = {}
         for url in pool:
-            names = IMAGE_NAMES if rng.random() < 0.6 else BAD_IMAGE_NAMES
-            table[url] = R.random_spec(rng, names, redirects=REDIRECTS)
+            table[url] = R.random_spec(rng, image_names(rng), redirects=REDIRECTS)
         reqs = []
         for _ in range(rng.randrange(1, 13)):
             url = rng.choice(pool) if rng.random() < 0.95 else 'http://img.test/unknown.png'
@@ -496,21 +510,16 @@ class C20(PropCheck):
 
     # add_font_face ---------------------------------------------------------------------------------
     def sec_fonts(self, run):
-        from weasyprint.text.ffi import ffi, fontconfig
         from weasyprint.text.fonts import FontConfiguration
         sec = run.section('font-face', 'FontConfiguration.add_font_face: src lists (url / local / internal / broken) x fetch '
-                          'failure modes x font data (valid otf/woff/woff2, truncated, garbage, wrong type); fetch events, '
+                          'failure modes x font data (valid otf/woff/woff2, garbage, wrong type, and real fonts truncated at many offsets / '
+                          'with an inverted byte / with a wrong magic number); fetch events, '
                           'installed font, bytes written, warning, escaping exception; non-trivial = some entry fails')
         config = FontConfiguration()
         R.cleanup_at_exit(config)
         local_name, local_uri = system_font()
         key_counter = itertools.count(1)
-
-        def app_fonts():
-            fonts = fontconfig.FcConfigGetFonts(config._config, fontconfig.FcSetApplication)
-            return 0 if fonts == ffi.NULL else fonts.nfont
-
-        for _ in range(run.n(250, 4000)):
+        for _ in range(run.n(300, 5000)):
             rng = run.rng
             table, faces = {}, []
             for _ in range(rng.randrange(1, 4)):
@@ -524,41 +533,55 @@ class C20(PropCheck):
                     r = rng.random()
                     if r < 0.65:
                         url = f'http://fonts.test/k{key}-{j}.' + rng.choice(['otf', 'woff', 'woff2'])
-                        table[url] = R.random_spec(rng, FONT_NAMES, mimes=[None, 'font/otf', 'text/html'])
+                        table[url] = R.random_spec(rng, font_names(rng), mimes=[None, 'font/otf', 'font/woff2', 'text/html'])
                         srcs.append(('external', url))
                     elif r < 0.72:
                         srcs.append(('external', None))
                     elif r < 0.78:
                         srcs.append(('internal', 'x'))
                     elif r < 0.9 and local_name:
-                        table[local_uri] = R.random_spec(rng, FONT_NAMES)
+                        table[local_uri] = R.random_spec(rng, font_names(rng))
                         srcs.append(('local', local_name))
                     else:
                         srcs.append(('local', 'No Such Font C20'))
                 faces.append((key, srcs))
             recorder = R.Recorder(table)
-            outs, failing = [], False
-            for key, srcs in faces:
-                descriptors = {'font_family': f'c20fam{key}', 'src': srcs}
-                before = app_fonts()
-                written = []
-                with R.captured_log() as log, recording_writes(written, recorder):
-                    try:
-                        config.add_font_face(descriptors, recorder)
-                        err = 'ok'
-                    except Exception as exc:  # noqa: BLE001
-                        err = f'err:{type(exc).__name__}'
-                warned = any('cannot be loaded' in r.getMessage() for r in log.records if r.levelname == 'WARNING')
-                installed = 'none'
-                if app_fonts() > before:
-                    installed = str(written[-1])
-                failing = failing or warned or err != 'ok' or len(written) > 1
-                outs.append(f'log={recorder.take()} installed={installed} written=[{",".join(map(str, written))}] '
-                            f'warned={str(warned).lower()} {err}')
+            outs, failing = self.run_font_case(config, recorder, faces)
             faces_wire = [[key, [font_src_sx(s, local_name, local_uri) for s in srcs]] for key, srcs in faces]
             line = sx.line('fonts', recorder.sx(), faces_wire)
-            sec.add(line, ' | '.join(outs), meta={'line': line}, nontrivial=failing,
-                    tags=['fails' if failing else 'loads'])
+            damaged = any(spec.kind == 'resp' and '@' in spec.content.name for spec in table.values())
+            sec.add(line, ' | '.join(outs),
+                    meta={'table': {u: spec.json() for u, spec in table.items()},
+                          'faces': [[key, [list(src) for src in srcs]] for key, srcs in faces]},
+                    nontrivial=failing, tags=['fails' if failing else 'loads'] + (['damaged-font-data'] if damaged else []))
+
+    @staticmethod
+    def run_font_case(config, recorder, faces):
+        """The real add_font_face on each face in turn -> (one observable line per face, some entry failed)."""
+        from weasyprint.text.ffi import ffi, fontconfig
+
+        def app_fonts():
+            fonts = fontconfig.FcConfigGetFonts(config._config, fontconfig.FcSetApplication)
+            return 0 if fonts == ffi.NULL else fonts.nfont
+        outs, failing = [], False
+        for key, srcs in faces:
+            descriptors = {'font_family': f'c20fam{key}', 'src': [tuple(src) for src in srcs]}
+            before = app_fonts()
+            written = []
+            with R.captured_log() as log, recording_writes(written, recorder):
+                try:
+                    config.add_font_face(descriptors, recorder)
+                    err = 'ok'
+                except Exception as exc:  # noqa: BLE001
+                    err = f'err:{type(exc).__name__}'
+            warned = any('cannot be loaded' in r.getMessage() for r in log.records if r.levelname == 'WARNING')
+            installed = 'none'
+            if app_fonts() > before:
+                installed = str(written[-1])
+            failing = failing or warned or err != 'ok' or len(written) > 1
+            outs.append(f'log={recorder.take()} installed={installed} written=[{",".join(map(str, written))}] '
+                        f'warned={str(warned).lower()} {err}')
+        return outs, failing
 
     # attachments -------------------------------------------------------------------------------------
     def sec_attachments(self, run):
@@ -741,6 +764,13 @@ class C20(PropCheck):
             return self.judge({**inp, 'impl': out})
         if sec == 'documents' and meta.get('replay'):
             return c20_doc.replay({'input': meta['replay']})
+        if sec == 'font-face' and 'table' in meta:
+            from weasyprint.text.fonts import FontConfiguration
+            config = FontConfiguration()
+            R.cleanup_at_exit(config)
+            recorder = R.Recorder({u: Spec.from_json(j) for u, j in meta['table'].items()})
+            outs, _ = self.run_font_case(config, recorder, meta['faces'])
+            return self.judge({**inp, 'impl': ' | '.join(outs)})
         return self.judge(inp)
 
     def search(self, run, failures):
